@@ -41,4 +41,7 @@ package mkarray
 //@   check none
 //@   scope functional
 //@   loop nextCounter invariant 0 <= i && i < len(counter) && forall(k, i + 1, len(counter), counter[k] == 0)
+// every counter stays a valid index into ITS OWN block (so each block is enumerated completely)
+//@   loop nextCounter invariant forall(t, 0, len(counter), imp(t != i && len(variable[t]) > 0, 0 <= counter[t] && counter[t] < len(variable[t])))
+//@   loop nextIndex invariant forall(t, 0, len(counter), imp(len(variable[t]) > 0, 0 <= counter[t] && counter[t] < len(variable[t])))
 //@   loop 1 step forall(t, 0, len(counter), counter[t] == 0)
